@@ -393,9 +393,9 @@ def shape_f3(case):
     return False
 
 
-def _f1_resource_problem(p, blocked_alias):
+def _f1_resource_problem(p, blocked_alias, redirected):
     if p.startswith(("fd-leak:", "fd-growth:")):
-        return not any(k in p for k in ("->file", "->pty", "->socket", "->anon_inode", "'file'", "'pty'", "'socket'"))
+        return not any(k in p for k in (("->pty", "->socket", "->anon_inode") + (() if redirected else ("->file",))))
     if p.startswith(("child-unreaped:", "child-running:", "child-growth:")):
         return True
     if p.startswith(("thread-alive:", "thread-growth:")):
@@ -406,7 +406,9 @@ def _f1_resource_problem(p, blocked_alias):
 def classify(case, level, group, probs):
     if shape_f1(case):
         blocked = shape_f1_blocked_alias(case)
-        if group == "resources" and all(_f1_resource_problem(p, blocked) for p in probs):
+        redirected = any(cmd.get("redir") and cmd["redir"][0] == "valid" and any(s in NOSTART for s in cmd["stages"][cmd["redir"][1] + 1:])
+                         for cmd in case["cmds"])     # a redirect file opened for an earlier stage of that pipeline
+        if group == "resources" and all(_f1_resource_problem(p, blocked, redirected) for p in probs):
             return "C09-F1"
         if blocked:
             if group == "std" and all(p.endswith("-> FileThreadDispatcher") for p in probs):
@@ -490,8 +492,10 @@ def _dirty():
         out.append("children")
     if _extra_threads():
         out.append("threads")
-    if "base_fds" in st and ob.fd_table() != st["base_fds"]:
-        out.append("descriptors")
+    if "base_fds" in st:
+        cur = ob.fd_table()
+        if cur != st["base_fds"]:
+            out.append("descriptors %s" % sorted(set(cur.items()) ^ set(st["base_fds"].items()))[:6])
     return out
 
 
@@ -608,7 +612,7 @@ def check_case(case, tolerate=frozenset(), stats=None):
         return cur
 
     try:
-        s0 = snap()
+        s0 = ob.snapshot(XSH, tty_fd=tty_fd, live=True)
         excs = []
         hang = None
         for src in srcs:
